@@ -26,6 +26,8 @@ def run_c02(ctx):
     if ctx.thorough():
         import layers
         layers.miri(ctx, res, "C02", shards=16)
+    import l2
+    l2.c02_cli(ctx, res)
     return res
 
 
